@@ -120,17 +120,17 @@ theorem recv_sequence_total (cfg : Cfg) (t : Tracker) (ops : List (Endpoint × B
     obtain ⟨t2, es, h2, hl⟩ := ih t1
     exact ⟨t2, e1 :: es, by simp [recvAll, h1, h2], by simp [hl]⟩
 
-/-! ### a dropped datagram is inert -/
+/-! ### a dropped datagram is inert, a well-formed message is dispatched -/
 
 /-- **C02, second sentence.**  A datagram that is not a well-formed message for the endpoint
     (gate fails, decoding is rejected, the endpoint's validity test fails, not an
     M-SEARCH/`ssdp:discover`, no matching target) fires no callback, sends nothing, schedules
     nothing and leaves the tracker — in particular the set of known devices — exactly as it was. -/
 theorem dropped_inert (cfg : Cfg) (ep : Endpoint) (t t' : Tracker) (eff : Eff) (data : Bytes) (loc : Option Addr)
-    (src : Addr) (now : Int) (hwf : wellFormed cfg ep data loc src now = false)
+    (src : Addr) (now : Int) (hwf : classify cfg ep data loc src now = none)
     (h : recv Fixes.all cfg ep t data loc src now = .ok (t', eff)) : eff = noEff ∧ t' = t := by
   unfold recv at h
-  unfold wellFormed at hwf
+  unfold classify at hwf
   cases hp : protocolRecv Fixes.all cfg.prefixes data loc src now with
   | error e => rw [hp] at h; cases h
   | ok r =>
@@ -143,17 +143,21 @@ theorem dropped_inert (cfg : Cfg) (ep : Endpoint) (t t' : Tracker) (eff : Eff) (
       cases ep with
       | adv =>
         simp only [onData] at h
-        simp only [hwf] at h
+        have : (advClassify hd).isSome = false := by
+          cases hc : (advClassify hd).isSome <;> simp_all
+        simp only [this] at h
         cases h; exact ⟨rfl, rfl⟩
       | search =>
         simp only [onData] at h
-        unfold firesSearch at hwf
+        have hf : firesSearch cfg hd = false := by
+          cases hc : firesSearch cfg hd <;> simp_all
+        unfold firesSearch at hf
         cases hc : searchClassify cfg.targetHost hd with
         | error e => rw [hc] at h; cases h
         | ok b =>
-          rw [hc] at h hwf
-          simp only at hwf
-          subst hwf
+          rw [hc] at h hf
+          simp only at hf
+          subst hf
           cases h; exact ⟨rfl, rfl⟩
       | listenerAdv =>
         simp only [onData] at h
@@ -163,74 +167,292 @@ theorem dropped_inert (cfg : Cfg) (ep : Endpoint) (t t' : Tracker) (eff : Eff) (
           rw [hc] at h hwf
           cases k with
           | byebye =>
-            simp only [Bool.and_eq_false_iff] at hwf
             simp only [unsee] at h
-            rcases hwf with hv | hu
+            by_cases hv : validByebye hd = true
+            · have hn : usnUdn hd = none := by simpa [hv] using hwf
+              simp [hv, hn] at h; exact ⟨h.2.symm, h.1.symm⟩
             · simp [hv] at h; exact ⟨h.2.symm, h.1.symm⟩
-            · have : usnUdn hd = none := by simpa using hu
-              by_cases hv : validByebye hd = true <;> simp [hv, this] at h <;> exact ⟨h.2.symm, h.1.symm⟩
           | alive =>
-            simp only [Bool.and_eq_false_iff] at hwf
             simp only [seeAdvertisement] at h
-            rcases hwf with hv | hu
+            by_cases hv : validAdv hd = true
+            · have hn : usnUdn hd = none := by simpa [hv] using hwf
+              simp [hv, seeDevice_none t hd hn] at h; exact ⟨h.2.symm, h.1.symm⟩
             · simp [hv] at h; exact ⟨h.2.symm, h.1.symm⟩
-            · have hn : usnUdn hd = none := by simpa using hu
-              by_cases hv : validAdv hd = true
-              · simp [hv, seeDevice_none t hd hn] at h; exact ⟨h.2.symm, h.1.symm⟩
-              · simp [hv] at h; exact ⟨h.2.symm, h.1.symm⟩
           | update =>
-            simp only [Bool.and_eq_false_iff] at hwf
             simp only [seeAdvertisement] at h
-            rcases hwf with hv | hu
+            by_cases hv : validAdv hd = true
+            · have hn : usnUdn hd = none := by simpa [hv] using hwf
+              simp [hv, seeDevice_none t hd hn] at h; exact ⟨h.2.symm, h.1.symm⟩
             · simp [hv] at h; exact ⟨h.2.symm, h.1.symm⟩
-            · have hn : usnUdn hd = none := by simpa using hu
-              by_cases hv : validAdv hd = true
-              · simp [hv, seeDevice_none t hd hn] at h; exact ⟨h.2.symm, h.1.symm⟩
-              · simp [hv] at h; exact ⟨h.2.symm, h.1.symm⟩
       | listenerSearch =>
         simp only [onData] at h
-        unfold firesSearch at hwf
         cases hc : searchClassify cfg.targetHost hd with
         | error e => rw [hc] at h; cases h
         | ok b =>
-          rw [hc] at h hwf
+          rw [hc] at h
+          have hfs : firesSearch cfg hd = b := by unfold firesSearch; rw [hc]
           cases b with
           | false => cases h; exact ⟨rfl, rfl⟩
           | true =>
-            simp only [Bool.true_and, Bool.and_eq_false_iff] at hwf
             simp only [seeSearch] at h
-            rcases hwf with hv | hu
+            by_cases hv : validSearch hd = true
+            · have hn : usnUdn hd = none := by simpa [hfs, hv] using hwf
+              simp [hv, seeDevice_none t hd hn] at h; exact ⟨h.2.symm, h.1.symm⟩
             · simp [hv] at h; exact ⟨h.2.symm, h.1.symm⟩
-            · have hn : usnUdn hd = none := by simpa using hu
-              by_cases hv : validSearch hd = true
-              · simp [hv, seeDevice_none t hd hn] at h; exact ⟨h.2.symm, h.1.symm⟩
-              · simp [hv] at h; exact ⟨h.2.symm, h.1.symm⟩
       | responder =>
         simp only [onData] at h
-        simp only [Bool.and_eq_false_iff, bne_eq_false_iff_eq] at hwf
         unfold responder at h
-        rcases hwf with hs | hc
+        by_cases hs : isSearch rl hd = true
+        · have hc : responseCount cfg hd = 0 := by
+            by_cases hc : responseCount cfg hd = 0
+            · exact hc
+            · simp [hs, hc] at hwf
+          simp [hs, respond, hc] at h; exact ⟨h.2.symm, h.1.symm⟩
         · simp [hs] at h; exact ⟨h.2.symm, h.1.symm⟩
-        · by_cases hs : isSearch rl hd = true
-          · simp [hs, respond, hc] at h; exact ⟨h.2.symm, h.1.symm⟩
-          · simp [hs] at h; exact ⟨h.2.symm, h.1.symm⟩
 
-/-- the judge accepts what the model does: for every datagram the model's own outcome, rendered as
-    an observation, satisfies `C02.ok` (so a judge failure at run time is a property of the
-    implementation, never of the judge) -/
+/-- the known-device map is a dict: its keys stay unique whatever arrives -/
+theorem purgeLoop_sublist (now : Int) (d : PyDict Bytes Int) (nx : Option Int) :
+    (purgeLoop now d nx).1.Sublist d := by
+  induction d generalizing nx with
+  | nil => simp [purgeLoop]
+  | cons p r ih =>
+    obtain ⟨u, vt⟩ := p
+    unfold purgeLoop
+    split
+    · exact (ih nx).trans (List.sublist_cons_self _ _)
+    · exact (ih _).cons₂ _
+
+theorem purge_nodup (t : Tracker) (now : Int) (h : (PyDict.keys t.devices).Nodup) :
+    (PyDict.keys (purge t now).devices).Nodup := by
+  have key : (PyDict.keys (purgeLoop now t.devices none).1).Nodup :=
+    List.Nodup.sublist ((purgeLoop_sublist now t.devices none).map _) h
+  unfold purge
+  split
+  · split
+    · exact h
+    · exact key
+  · exact key
+
+theorem seeDevice_spec {t t' : Tracker} {hd : Hdrs} {o : Option Bytes}
+    (h : seeDevice Fixes.all t hd = .ok (t', o)) (hn : (PyDict.keys t.devices).Nodup) :
+    (PyDict.keys t'.devices).Nodup ∧ (usnUdn hd = none → t' = t) ∧ (∀ u, usnUdn hd = some u → u ∈ PyDict.keys t'.devices) := by
+  unfold seeDevice at h
+  simp only [Fixes.all, if_true] at h
+  cases hu : usnUdn hd with
+  | none => rw [hu] at h; cases h; exact ⟨hn, fun _ => rfl, fun u e => by cases e⟩
+  | some udn =>
+    rw [hu] at h
+    dsimp only at h
+    obtain ⟨vt, hv⟩ := validTo_total hd (nowOf hd)
+    simp only [Fixes.all] at hv
+    rw [hv] at h
+    cases h
+    refine ⟨PyDict.nodup_keys_set _ _ _ (purge_nodup t _ hn), ⟨fun e => absurd e (by simp), ?_⟩⟩
+    intro u e
+    simp only [Option.some.injEq] at e; subst e
+    exact (PyDict.mem_keys_set _ _ _ _).mpr (Or.inl rfl)
+
+theorem respond_effect (delay : Int) (count : Nat) {e : Eff} (hc : count ≠ 0)
+    (h : respond Fixes.all delay count = .ok e) : e.sends + e.timers ≥ 1 := by
+  unfold respond at h
+  by_cases hd : delay > 0
+  · have : ¬ (delay * 1000 - 250 ≤ 100) := by omega
+    simp [hc, hd, this, Fixes.all] at h
+    subst h; decide
+  · simp [hc, hd, Fixes.all] at h
+    subst h
+    show count + 0 ≥ 1
+    omega
+
+/-- model-level reading of `Obs.dispatched` -/
+def dispatchedM (t' : Tracker) (eff : Eff) : Dispatch → Prop
+  | .notify => eff.cbMin ≥ 1
+  | .see u => u ∈ PyDict.keys t'.devices
+  | .unsee u => u ∉ PyDict.keys t'.devices
+  | .respond => eff.sends + eff.timers ≥ 1
+
+/-- **C02, "a well-formed message is dispatched"**, and the invariant that makes the next datagram
+    meet a proper dict again: in every state whose device keys are unique, a well-formed message
+    has its effect (callback / device recorded / device forgotten / answer sent or scheduled) and
+    the keys stay unique; a dropped one changes nothing. -/
+theorem dispatched_effect (cfg : Cfg) (ep : Endpoint) (t t' : Tracker) (eff : Eff) (data : Bytes) (loc : Option Addr)
+    (src : Addr) (now : Int) (hn : (PyDict.keys t.devices).Nodup)
+    (h : recv Fixes.all cfg ep t data loc src now = .ok (t', eff)) :
+    (PyDict.keys t'.devices).Nodup ∧ ∀ d, classify cfg ep data loc src now = some d → dispatchedM t' eff d := by
+  cases hcl : classify cfg ep data loc src now with
+  | none =>
+    obtain ⟨_, rfl⟩ := dropped_inert cfg ep t t' eff data loc src now hcl h
+    exact ⟨hn, fun d e => by cases e⟩
+  | some d0 =>
+    unfold recv at h
+    unfold classify at hcl
+    cases hp : protocolRecv Fixes.all cfg.prefixes data loc src now with
+    | error e => rw [hp] at h; cases h
+    | ok r =>
+      rw [hp] at h hcl
+      cases r with
+      | none => cases hcl
+      | some p =>
+        obtain ⟨rl, hd⟩ := p
+        dsimp only at h hcl
+        cases ep with
+        | adv =>
+          simp only [onData] at h
+          by_cases hc : (advClassify hd).isSome = true
+          · simp only [hc, if_true, Option.some.injEq] at hcl h
+            cases h; subst hcl
+            exact ⟨hn, fun d e => by cases e; show oneCb.cbMin ≥ 1; decide⟩
+          · simp [hc] at hcl
+        | search =>
+          simp only [onData] at h
+          by_cases hf : firesSearch cfg hd = true
+          · simp only [hf, if_true, Option.some.injEq] at hcl
+            unfold firesSearch at hf
+            cases hc : searchClassify cfg.targetHost hd with
+            | error e => rw [hc] at h; cases h
+            | ok b =>
+              rw [hc] at h hf; simp only at hf; subst hf
+              cases h; subst hcl
+              exact ⟨hn, fun d e => by cases e; show oneCb.cbMin ≥ 1; decide⟩
+          · simp [hf] at hcl
+        | listenerAdv =>
+          simp only [onData] at h
+          cases hc : advClassify hd with
+          | none => rw [hc] at hcl; cases hcl
+          | some k =>
+            rw [hc] at h hcl
+            cases k with
+            | byebye =>
+              by_cases hv : validByebye hd = true
+              · simp only [hv, if_true] at hcl
+                cases hu : usnUdn hd with
+                | none => rw [hu] at hcl; cases hcl
+                | some u =>
+                  rw [hu] at hcl; simp only [Option.map_some, Option.some.injEq] at hcl; subst hcl
+                  simp only [unsee, hv, hu] at h
+                  by_cases hk : PyDict.contains t.devices u = true
+                  · simp [hk] at h
+                    obtain ⟨rfl, rfl⟩ := h
+                    refine ⟨PyDict.nodup_keys_erase _ _ hn, fun d e => ?_⟩
+                    cases e
+                    show u ∉ PyDict.keys (PyDict.erase t.devices u)
+                    rw [← PyDict.get?_eq_none_iff]; exact PyDict.get?_erase_self _ _ hn
+                  · simp [hk] at h
+                    obtain ⟨rfl, rfl⟩ := h
+                    refine ⟨hn, fun d e => ?_⟩
+                    cases e
+                    show u ∉ PyDict.keys t.devices
+                    rw [← PyDict.get?_eq_none_iff]
+                    simpa [PyDict.contains] using hk
+              · simp [hv] at hcl
+            | alive =>
+              by_cases hv : validAdv hd = true
+              · simp only [hv, if_true] at hcl
+                simp only [seeAdvertisement, hv] at h
+                obtain ⟨⟨t1, o⟩, hs⟩ := seeDevice_total t hd
+                rw [hs] at h
+                obtain ⟨n1, _, n3⟩ := seeDevice_spec hs hn
+                have ht : t' = t1 := by cases o <;> (simp at h; exact h.1.symm)
+                subst ht
+                refine ⟨n1, fun d e => ?_⟩
+                cases hu : usnUdn hd with
+                | none => rw [hu] at hcl; cases hcl
+                | some u => rw [hu] at hcl; simp at hcl; subst hcl; cases e; exact n3 u hu
+              · simp [hv] at hcl
+            | update =>
+              by_cases hv : validAdv hd = true
+              · simp only [hv, if_true] at hcl
+                simp only [seeAdvertisement, hv] at h
+                obtain ⟨⟨t1, o⟩, hs⟩ := seeDevice_total t hd
+                rw [hs] at h
+                obtain ⟨n1, _, n3⟩ := seeDevice_spec hs hn
+                have ht : t' = t1 := by cases o <;> (simp at h; exact h.1.symm)
+                subst ht
+                refine ⟨n1, fun d e => ?_⟩
+                cases hu : usnUdn hd with
+                | none => rw [hu] at hcl; cases hcl
+                | some u => rw [hu] at hcl; simp at hcl; subst hcl; cases e; exact n3 u hu
+              · simp [hv] at hcl
+        | listenerSearch =>
+          simp only [onData] at h
+          by_cases hf : (firesSearch cfg hd && validSearch hd) = true
+          · simp only [hf, if_true] at hcl
+            simp only [Bool.and_eq_true] at hf
+            obtain ⟨hf1, hv⟩ := hf
+            unfold firesSearch at hf1
+            cases hc : searchClassify cfg.targetHost hd with
+            | error e => rw [hc] at h; cases h
+            | ok b =>
+              rw [hc] at h hf1; simp only at hf1; subst hf1
+              simp only [seeSearch, hv] at h
+              obtain ⟨⟨t1, o⟩, hs⟩ := seeDevice_total t hd
+              rw [hs] at h
+              obtain ⟨n1, _, n3⟩ := seeDevice_spec hs hn
+              have ht : t' = t1 := by cases o <;> (simp at h; exact h.1.symm)
+              subst ht
+              refine ⟨n1, fun d e => ?_⟩
+              cases hu : usnUdn hd with
+              | none => rw [hu] at hcl; cases hcl
+              | some u => rw [hu] at hcl; simp at hcl; subst hcl; cases e; exact n3 u hu
+          · simp [hf] at hcl
+        | responder =>
+          simp only [onData] at h
+          by_cases hc : (isSearch rl hd && responseCount cfg hd != 0) = true
+          · simp only [hc, if_true, Option.some.injEq] at hcl; subst hcl
+            simp only [Bool.and_eq_true, bne_iff_ne, ne_eq] at hc
+            obtain ⟨hs, hcnt⟩ := hc
+            unfold responder at h
+            simp only [hs, Bool.not_true, Bool.false_eq_true, if_false] at h
+            obtain ⟨e1, he1⟩ := respond_total (delayOf hd) (responseCount cfg hd)
+            rw [he1] at h
+            simp only [Except.ok.injEq, Prod.mk.injEq] at h
+            obtain ⟨rfl, rfl⟩ := h
+            exact ⟨hn, fun d e => by cases e; exact respond_effect _ _ hcnt he1⟩
+          · simp [hc] at hcl
+
+/-- every state reached from the empty tracker by any sequence of datagrams has unique device keys
+    (the hypothesis of `dispatched_effect` / `model_judged_ok` holds along every history) -/
+theorem recv_sequence_nodup (cfg : Cfg) (t : Tracker) (hn : (PyDict.keys t.devices).Nodup)
+    (ops : List (Endpoint × Bytes × Option Addr × Addr × Int)) (t' : Tracker) (effs : List Eff)
+    (h : recvAll Fixes.all cfg t ops = .ok (t', effs)) : (PyDict.keys t'.devices).Nodup := by
+  induction ops generalizing t effs with
+  | nil => simp only [recvAll, Except.ok.injEq, Prod.mk.injEq] at h; rw [← h.1]; exact hn
+  | cons op r ih =>
+    obtain ⟨ep, data, loc, src, now⟩ := op
+    unfold recvAll at h
+    obtain ⟨t1, e1, h1⟩ := recv_total cfg ep t data loc src now
+    rw [h1] at h
+    dsimp only at h
+    obtain ⟨t2, es, h2, _⟩ := recv_sequence_total cfg t1 r
+    rw [h2] at h
+    simp only [Except.ok.injEq, Prod.mk.injEq] at h
+    obtain ⟨rfl, _⟩ := h
+    exact ih t1 (dispatched_effect cfg ep t t1 e1 data loc src now hn h1).1 es h2
+
+/-- the judge accepts what the model does: for every datagram, in every state with unique device
+    keys, the model's own outcome rendered as an observation satisfies `C02.ok` — so a judge
+    failure at run time is a property of the implementation, never of the judge -/
 theorem model_judged_ok (cfg : Cfg) (ep : Endpoint) (t : Tracker) (data : Bytes) (loc : Option Addr) (src : Addr)
-    (now : Int) (sortKeys : List Bytes → List Bytes) :
+    (now : Int) (hn : (PyDict.keys t.devices).Nodup) (sortKeys : List Bytes → List Bytes)
+    (hsort : ∀ l x, x ∈ sortKeys l ↔ x ∈ l) :
     ∃ o, obsOf t (recv Fixes.all cfg ep t data loc src now) sortKeys = some o
-      ∧ ok (wellFormed cfg ep data loc src now) o = true := by
+      ∧ ok (classify cfg ep data loc src now) o = true := by
   obtain ⟨t', eff, h⟩ := recv_total cfg ep t data loc src now
   rw [h]
   refine ⟨_, rfl, ?_⟩
-  cases hw : wellFormed cfg ep data loc src now with
-  | true => simp [ok]
-  | false =>
-    obtain ⟨he, ht⟩ := dropped_inert cfg ep t t' eff data loc src now hw h
+  obtain ⟨_, hd⟩ := dispatched_effect cfg ep t t' eff data loc src now hn h
+  cases hc : classify cfg ep data loc src now with
+  | none =>
+    obtain ⟨he, ht⟩ := dropped_inert cfg ep t t' eff data loc src now hc h
     subst he ht
     simp [ok, Obs.inert, noEff]
+  | some d =>
+    have := hd d hc
+    cases d with
+    | notify => simpa [ok, Obs.dispatched, dispatchedM] using this
+    | see u => simpa [ok, Obs.dispatched, dispatchedM, hsort] using this
+    | unsee u => simpa [ok, Obs.dispatched, dispatchedM, hsort] using this
+    | respond => simpa [ok, Obs.dispatched, dispatchedM] using this
 
 /-! ### each repair is necessary: one raising datagram per unrepaired variant
 
@@ -273,7 +495,7 @@ theorem witness_F02a (v : Bytes) (hl : v.length > maxField) (h1 : v.head? ≠ so
   simp only [hs, lstripSPHT_id v h1 h2]
   have : ¬ ([88] : Bytes).length > maxField := by decide
   have hv : v.length > maxField := hl
-  simp [this, hv, isToken, isTchar, SP, HT]
+  simp [hv, isToken, isTchar, SP, HT]
 
 theorem witness_F02b :
     raises (recv { Fixes.all with catchUnicode := false } wCfg .adv {}
@@ -328,7 +550,7 @@ theorem witness_F02h (ds : Bytes) (hl : ds.length > 4300) (hd : ∀ b ∈ ds, is
       decide
     simp only [hst, if_true]
     have hdrop : (([109, 97, 120, 45, 97, 103, 101, 61] ++ d0 :: dr).drop 7).dropWhile isReWs = 61 :: d0 :: dr := by
-      simp [List.dropWhile, isReWs]
+      simp [isReWs]
     rw [hdrop]
     simp only [List.dropWhile, hws, htw]
     simp
